@@ -26,6 +26,11 @@ type seam struct {
 	env *Env
 }
 
+// pre is the moment the call crosses into the reporter: a scheduling point
+// before the value is recorded as delivered. (A real reporter takes its own
+// lock here; two calls in flight may be processed in either order.)
+func (s *seam) pre() { simrt.Point(simrt.OpYield, nil) }
+
 func (s *seam) enter(e *Event) {
 	env := s.env
 	simrt.Point(simrt.OpYield, nil)
@@ -52,12 +57,14 @@ func (caps) Tagging() bool   { return true }
 func (r *RecReporter) Capabilities() tally.Capabilities { return caps{} }
 
 func (r *RecReporter) Flush() {
+	r.pre()
 	e := r.env.Log.begin(r.env.Sim, EvFlush, "", nil)
 	r.enter(e)
 	r.env.Log.end(e)
 }
 
 func (r *RecReporter) ReportCounter(name string, tags map[string]string, value int64) {
+	r.pre()
 	e := r.env.Log.begin(r.env.Sim, EvCounter, name, tags)
 	e.I = value
 	r.enter(e)
@@ -65,6 +72,7 @@ func (r *RecReporter) ReportCounter(name string, tags map[string]string, value i
 }
 
 func (r *RecReporter) ReportGauge(name string, tags map[string]string, value float64) {
+	r.pre()
 	e := r.env.Log.begin(r.env.Sim, EvGauge, name, tags)
 	e.F = f64bits(value)
 	r.enter(e)
@@ -72,6 +80,7 @@ func (r *RecReporter) ReportGauge(name string, tags map[string]string, value flo
 }
 
 func (r *RecReporter) ReportTimer(name string, tags map[string]string, interval time.Duration) {
+	r.pre()
 	e := r.env.Log.begin(r.env.Sim, EvTimer, name, tags)
 	e.I = int64(interval)
 	r.enter(e)
@@ -79,6 +88,7 @@ func (r *RecReporter) ReportTimer(name string, tags map[string]string, interval 
 }
 
 func (r *RecReporter) ReportHistogramValueSamples(name string, tags map[string]string, buckets tally.Buckets, lo, hi float64, samples int64) {
+	r.pre()
 	e := r.env.Log.begin(r.env.Sim, EvHVal, name, tags)
 	e.Lo, e.Hi, e.I = lo, hi, samples
 	e.Spec = specOf(buckets)
@@ -87,6 +97,7 @@ func (r *RecReporter) ReportHistogramValueSamples(name string, tags map[string]s
 }
 
 func (r *RecReporter) ReportHistogramDurationSamples(name string, tags map[string]string, buckets tally.Buckets, lo, hi time.Duration, samples int64) {
+	r.pre()
 	e := r.env.Log.begin(r.env.Sim, EvHDur, name, tags)
 	e.LoD, e.HiD, e.I = lo, hi, samples
 	e.Spec = specOf(buckets)
@@ -95,6 +106,7 @@ func (r *RecReporter) ReportHistogramDurationSamples(name string, tags map[strin
 }
 
 func (r *RecReporterCloser) Close() error {
+	r.pre()
 	e := r.env.Log.begin(r.env.Sim, EvRepClose, "", nil)
 	r.enter(e)
 	r.env.Log.end(e)
@@ -128,12 +140,14 @@ type handle struct {
 func (r *RecCached) Capabilities() tally.Capabilities { return caps{} }
 
 func (r *RecCached) Flush() {
+	r.pre()
 	e := r.env.Log.begin(r.env.Sim, EvFlush, "", nil)
 	r.enter(e)
 	r.env.Log.end(e)
 }
 
 func (r *RecCached) alloc(kind, name string, tags map[string]string) (*handle, *Event) {
+	r.pre()
 	e := r.env.Log.begin(r.env.Sim, kind, name, tags)
 	e.Cached = true
 	h := &handle{r: r, kind: kind, name: name, tags: copyTags(tags)}
@@ -149,6 +163,7 @@ func (r *RecCached) addHandle(h *handle) {
 }
 
 func (r *RecCached) AllocateCounter(name string, tags map[string]string) tally.CachedCount {
+	r.pre()
 	h, e := r.alloc(EvAllocC, name, tags)
 	r.enter(e)
 	r.env.Log.end(e)
@@ -156,6 +171,7 @@ func (r *RecCached) AllocateCounter(name string, tags map[string]string) tally.C
 }
 
 func (r *RecCached) AllocateGauge(name string, tags map[string]string) tally.CachedGauge {
+	r.pre()
 	h, e := r.alloc(EvAllocG, name, tags)
 	r.enter(e)
 	r.env.Log.end(e)
@@ -163,6 +179,7 @@ func (r *RecCached) AllocateGauge(name string, tags map[string]string) tally.Cac
 }
 
 func (r *RecCached) AllocateTimer(name string, tags map[string]string) tally.CachedTimer {
+	r.pre()
 	h, e := r.alloc(EvAllocT, name, tags)
 	r.enter(e)
 	r.env.Log.end(e)
@@ -170,6 +187,7 @@ func (r *RecCached) AllocateTimer(name string, tags map[string]string) tally.Cac
 }
 
 func (r *RecCached) AllocateHistogram(name string, tags map[string]string, buckets tally.Buckets) tally.CachedHistogram {
+	r.pre()
 	h, e := r.alloc(EvAllocH, name, tags)
 	e.Spec = specOf(buckets)
 	r.enter(e)
@@ -178,6 +196,7 @@ func (r *RecCached) AllocateHistogram(name string, tags map[string]string, bucke
 }
 
 func (h *handle) ReportCount(v int64) {
+	h.r.pre()
 	e := h.r.env.Log.begin(h.r.env.Sim, EvCounter, h.name, h.tags)
 	e.Cached, e.Handle, e.I = true, h.id, v
 	h.r.enter(e)
@@ -185,6 +204,7 @@ func (h *handle) ReportCount(v int64) {
 }
 
 func (h *handle) ReportGauge(v float64) {
+	h.r.pre()
 	e := h.r.env.Log.begin(h.r.env.Sim, EvGauge, h.name, h.tags)
 	e.Cached, e.Handle, e.F = true, h.id, f64bits(v)
 	h.r.enter(e)
@@ -192,6 +212,7 @@ func (h *handle) ReportGauge(v float64) {
 }
 
 func (h *handle) ReportTimer(d time.Duration) {
+	h.r.pre()
 	e := h.r.env.Log.begin(h.r.env.Sim, EvTimer, h.name, h.tags)
 	e.Cached, e.Handle, e.I = true, h.id, int64(d)
 	h.r.enter(e)
@@ -200,6 +221,7 @@ func (h *handle) ReportTimer(d time.Duration) {
 
 func (h *handle) ValueBucket(lo, hi float64) tally.CachedHistogramBucket {
 	r := h.r
+	r.pre()
 	e := r.env.Log.begin(r.env.Sim, EvAllocVB, h.name, h.tags)
 	b := &handle{r: r, kind: EvAllocVB, name: h.name, tags: h.tags, parent: h.id, lo: lo, hi: hi}
 	r.addHandle(b)
@@ -211,6 +233,7 @@ func (h *handle) ValueBucket(lo, hi float64) tally.CachedHistogramBucket {
 
 func (h *handle) DurationBucket(lo, hi time.Duration) tally.CachedHistogramBucket {
 	r := h.r
+	r.pre()
 	e := r.env.Log.begin(r.env.Sim, EvAllocDB, h.name, h.tags)
 	b := &handle{r: r, kind: EvAllocDB, name: h.name, tags: h.tags, parent: h.id, loD: lo, hiD: hi}
 	r.addHandle(b)
@@ -225,6 +248,7 @@ func (h *handle) ReportSamples(v int64) {
 	if h.kind == EvAllocDB {
 		kind = EvHDur
 	}
+	h.r.pre()
 	e := h.r.env.Log.begin(h.r.env.Sim, kind, h.name, h.tags)
 	e.Cached, e.Handle, e.Parent, e.I = true, h.id, h.parent, v
 	e.Lo, e.Hi, e.LoD, e.HiD = h.lo, h.hi, h.loD, h.hiD
@@ -233,6 +257,7 @@ func (h *handle) ReportSamples(v int64) {
 }
 
 func (r *RecCachedCloser) Close() error {
+	r.pre()
 	e := r.env.Log.begin(r.env.Sim, EvRepClose, "", nil)
 	r.enter(e)
 	r.env.Log.end(e)
